@@ -456,11 +456,15 @@ func (n *BinaryOperator) String() string {
 	var s string
 	if e, ok := n.Expr1.(Operator); ok && e.Precedence() <= n.Precedence() {
 		s += "(" + n.Expr1.String() + ")"
+	} else if _, ok := n.Expr1.(*Default); ok {
+		s += "(" + n.Expr1.String() + ")"
 	} else {
 		s += n.Expr1.String()
 	}
 	s += " " + n.Op.String() + " "
 	if e, ok := n.Expr2.(Operator); ok && e.Precedence() <= n.Precedence() {
+		s += "(" + n.Expr2.String() + ")"
+	} else if _, ok := n.Expr2.(*Default); ok {
 		s += "(" + n.Expr2.String() + ")"
 	} else {
 		s += n.Expr2.String()
@@ -1557,6 +1561,11 @@ func (n *UnaryOperator) String() string {
 	}
 	if e, ok := n.Expr.(Operator); ok && (n.Op == OperatorReceive || e.Precedence() <= n.Precedence()) {
 		s += "(" + n.Expr.String() + ")"
+	} else if _, ok := n.Expr.(*Default); ok {
+		s += "(" + n.Expr.String() + ")"
+	} else if e := n.Expr.String(); n.Op == OperatorReceive && strings.HasPrefix(e, "chan") {
+		// "<-chan T{}" would be read as a literal of a receive-only channel type.
+		s += "(" + e + ")"
 	} else {
 		s += n.Expr.String()
 	}
